@@ -109,6 +109,11 @@ type Prop struct {
 	// RequiredStats: the run is broken (exit 3) if any of these counters is 0.
 	RequiredStats func(tier string) []string
 	Workers       int
+	// ThoroughRounds > 1 makes the thorough tier run the whole case list that many times; round r
+	// uses seed + r*100003, i.e. other PRNG draws where the cases are generated and other yield /
+	// sleep plans at the hook points everywhere. Only for properties whose case list does not
+	// depend on the seed.
+	ThoroughRounds int
 }
 
 var registry = map[string]*Prop{}
@@ -179,7 +184,11 @@ func ChildMain(propID, tier string, seed int64, start, stride, n int, out string
 		fmt.Fprintf(f, "BEGIN %d\n", idx)
 		var res *Result
 		for attempt := 0; attempt < 3; attempt++ {
-			res = p.Run(tier, seed, idx)
+			if plan := p.Plan(tier, seed); rounds(p, tier) > 1 && plan > 0 {
+				res = p.Run(tier, seed+int64(idx/plan)*100003, idx%plan)
+			} else {
+				res = p.Run(tier, seed, idx)
+			}
 			if res.Verdict != Inconclusive {
 				break
 			}
@@ -348,9 +357,16 @@ func firstLines(s string, n int) string {
 	return strings.Join(ls, " | ")
 }
 
+func rounds(p *Prop, tier string) int {
+	if tier == "thorough" && p.ThoroughRounds > 1 {
+		return p.ThoroughRounds
+	}
+	return 1
+}
+
 func RunParent(p *Prop, o Options) int {
 	t0 := time.Now()
-	n := p.Plan(o.Tier, o.Seed)
+	n := p.Plan(o.Tier, o.Seed) * rounds(p, o.Tier)
 	work := filepath.Join(o.VerifDir, "work", fmt.Sprintf("%s-%s-%d", p.ID, o.Tier, os.Getpid()))
 	os.RemoveAll(work)
 	if err := os.MkdirAll(work, 0o755); err != nil {
